@@ -152,6 +152,9 @@ func (obj *ShapeHmm) ImportConfig(config ConfigDistribution, t ScalarType) error
   if err := obj.Hmm.ImportConfig(config, t); err != nil {
     return err
   }
+  if len(config.Distributions) != obj.NEDists() {
+    return fmt.Errorf("invalid config file: %d emission distributions for %d classes of states", len(config.Distributions), obj.NEDists())
+  }
 
   distributions := make([]MatrixPdf, len(config.Distributions))
   for i := 0; i < len(config.Distributions); i++ {
